@@ -11,7 +11,7 @@ def main(run: Run) -> int:
     from ahbicht.validation import validation as V
 
     run.encodes(V.get_segment_level_requirement_validation_value, V.validate_data_element_freetext, V.validate_data_element_valuepool)
-    jobs = valcommon.jobs("C16", run.tier, ("seg_level", "freetext_step", "valuepool_step"), trees=(2, 3))
+    jobs = valcommon.jobs("C16", run.tier, ("seg_level", "freetext_step", "valuepool_step"), trees=(2, 3, 4))
     feats = lambda r, rep: {"part": r["fn"]}  # noqa: E731
     for r, j in zip(xh.run_jobs(run, "vf.harness.val_harness", jobs), jobs):
         xh.default_verdict(run, r, feats, bound=j["bound"])
